@@ -64,6 +64,9 @@ def showOut : Out → String
   | .nat n => toString n
   | .bool b => showBool b
 
+/-- White-box state printed after every answer: the slice, bottom first. -/
+def showState (s : St) : String := showNatList (s.take 64)
+
 def stepLine (s : St) (toks : List String) : St × String :=
   match toks with
   | ["new", _] => (init, "ok")
